@@ -20,6 +20,28 @@ CHECKS = {
                 "strings + grammar-generated), not proved; patterns outside the strict documented grammar are C10's business.",
         'technique': 'Lean 4 compiler-correctness theorem (structural induction) + text/AST correspondence + spec-vs-API search',
     },
+    'C02': {
+        'text': "Theorems (Lean): the path-mode building blocks mean what C02 says for every subject and both case modes — "
+                "`*` ([^/]*?) consumes only non-separators, `?`/brackets are guarded by (?![/]), a written separator is [/]+ — "
+                "each AST proved to print to exactly the source constant (a changed constant breaks the proof); in the "
+                "specification a globstar-free pattern consumes exactly one piece per segment. The composition of the blocks "
+                "by the path-mode pass is tied by regex-text equality (K1) and regex semantics (K2) and searched with the "
+                "executable path specification (segments, globstar expansion, MATCHBASE) against globmatch/globfilter/compile.",
+        'note': TB + "PARTIAL: the whole-pattern compiler theorem is proved for file-name patterns (C01) only; for multi-segment "
+                "patterns the tie is sampled. Known findings KF-D1p (guards re-tested in repeated groups), KF-D3p ($ before a final newline).",
+        'technique': 'Lean 4 fragment-semantics theorems + generated-constant render proofs + text correspondence + path-spec search',
+    },
+    'C03': {
+        'text': "Theorems (Lean): fnmatch mode (tidy compiler of C01): without DOTMATCH a name beginning with '.' is matched only if "
+                "the pattern's first token is a written '.' (all patterns whose first token is not an extended group — defect D5 "
+                "lives exactly there), and a pattern beginning with a written '.' matches exactly its documented language on every "
+                "name (granted). Path mode: `*` at a segment start cannot consume a leading dot; `**` never steps over a separator "
+                "followed by a dot nor consumes a leading dot. Search: Must ⊆ code ⊆ May sandwich of the executable specification "
+                "on hidden pieces and ./.., exclusions compared with the DOTGLOB match.",
+        'note': TB + "PARTIAL: whole path patterns are sampled, not proved. Open known findings KF-D4, KF-D5, KF-D6, KF-D15, KF-D1p "
+                "(witnesses are decide+kernel theorems on the faithful port).",
+        'technique': 'Lean 4 theorems on the tidy compiler and on the globstar/star fragments + May/Must sandwich search',
+    },
     'C10': {
         'text': "Theorems over the faithful Lean port of WcParse: the pass is total for every string and every flag "
                 "record and can raise only the documented ValueError (and only under _NOABSOLUTE); the executable matcher "
@@ -33,5 +55,5 @@ CHECKS = {
 }
 
 NOT_APPLICABLE = {k: 'check not built yet in this session (model/proofs in progress); no claim is made' for k in
-                  ['C02', 'C03', 'C04', 'C05', 'C06', 'C07', 'C08', 'C09', 'C11', 'C12', 'C13', 'C14', 'C15',
+                  [ 'C04', 'C05', 'C06', 'C07', 'C08', 'C09', 'C11', 'C12', 'C13', 'C14', 'C15',
                    'C16', 'C17', 'C18', 'C19', 'C20']}
